@@ -707,6 +707,9 @@ class Interp:
             dmap[p.arg] = d
         for p, a in zip(params, args):
             env[p] = a
+        va = target.node.args.vararg
+        if va is not None:
+            env[va.arg] = ('tuple', tuple(args[len(params):]))       # def f(a, *rest)
         # a caller's local list passed by name is the SAME object in the callee: mutations must reach the caller's variable
         for p, an in zip(params, [x for x in n.args if not isinstance(x, ast.Starred)]):
             if isinstance(an, ast.Name) and an.id in fr.env:
@@ -749,7 +752,7 @@ class Interp:
         if rv == TOP('return-in-loop'):
             # a search / comparison loop with early returns: keep the call opaque (callee identity and arguments stay visible)
             rv = CALL(A(recv if recv is not None else S('<module>'), target.name), args, kw)
-        self.emit(Eff('call', fr.func, n, target=target, body=body, args=tuple(args), ret=rv, returns=fr2.returns))
+        self.emit(Eff('call', fr.func, n, target=target, body=body, args=tuple(args), kw=tuple(kw), ret=rv, returns=fr2.returns))
         return rv
 
     # ---- statements ----------------------------------------------------------------
